@@ -1,3 +1,329 @@
-import LcdbModel.Model.Conc
+/-
+  C09 -- the write path neither deadlocks nor loses a wake-up.
+
+  Statements about `Lcdb.Conc` (LcdbModel/Model/Conc.lean), for every schedule and every outcome of the data-dependent
+  choices. `WF ws rs`: thread ids distinct (across writers and readers), batch ids distinct, nobody started.
+-/
+import LcdbModel.Lemmas.ConcDemo
+import LcdbModel.Lemmas.ConcRank
+
 namespace Lcdb.C09
+open Lcdb.Conc
+
+/-- the program counters of a writer that is on the queue -/
+def queuedPc (p : WPc) : Prop :=
+  p = .asleepW ∨ p = .wokenW ∨ p = .asleepBg ∨ p = .wokenBg ∨ p = .delayed ∨ p = .io
+
+/-- 1. The writer queue. -/
+theorem queue_inv {ws : List Writer} {rs : List Reader} (hwf : WF ws rs) {st : St} (h : Reachable ws rs st) :
+    st.queue.Nodup ∧
+    (∀ t ∈ st.queue, ∃ w ∈ st.writers, w.tid = t) ∧
+    -- on the queue iff in flight and not yet handed a result
+    (∀ w ∈ st.writers, (w.tid ∈ st.queue ↔ queuedPc w.pc ∧ w.done = false)) ∧
+    -- the group being written is a prefix of the queue, non-empty iff the head is doing its I/O
+    st.inflight <+: st.queue ∧
+    (st.inflight ≠ [] ↔ ∃ w ∈ st.writers, st.queue.head? = some w.tid ∧ w.pc = .io) ∧
+    -- `done` is set only on writers a leader removed from the queue; they are woken (or, afterwards, have returned
+    -- exactly the status they were handed)
+    (∀ w ∈ st.writers, w.done = true → w.tid ∉ st.queue ∧ (w.pc = .wokenW ∨ w.pc = .returned w.status)) := by
+  have H := (reachable_Inv hwf h).q
+  refine ⟨H.qnodup, H.qmem, ?_, H.pfx, ?_, ?_⟩
+  · intro w hw
+    have := H.wq' hw
+    have hm : st.queue.head? = some w.tid → w.tid ∈ st.queue := List.mem_of_mem_head?
+    unfold WQ at this; unfold queuedPc
+    cases hpc : w.pc <;> simp only [hpc] at this <;> simp <;> grind
+  · constructor
+    · intro hne
+      cases hi : st.inflight with
+      | nil => exact absurd hi hne
+      | cons a l =>
+        obtain ⟨r, hr⟩ := H.pfx
+        have hq : st.queue.head? = some a := by rw [← hr, hi]; rfl
+        obtain ⟨w, hw, hwt⟩ := H.qmem a (List.mem_of_mem_head? hq)
+        exact ⟨w, hw, by rw [hwt]; exact hq, H.io_of_inflight hw (by simp) (by rw [hi, hwt]; rfl)⟩
+    · rintro ⟨w, hw, _, hpc⟩ h0
+      have := H.wq' hw
+      simp [WQ, hpc, h0] at this
+  · intro w hw hd
+    have := H.wq' hw
+    have hm : st.queue.head? = some w.tid → w.tid ∈ st.queue := List.mem_of_mem_head?
+    unfold WQ at this
+    cases hpc : w.pc <;> simp only [hpc] at this <;> simp <;> grind
+
+/-- 2. No lost wake-up: whoever sleeps on its own condition variable does not have to run yet, and the head of the
+    queue never sleeps there. -/
+theorem wakeup_inv {ws : List Writer} {rs : List Reader} (hwf : WF ws rs) {st : St} (h : Reachable ws rs st) :
+    (∀ w ∈ st.writers, w.pc = .asleepW → st.queue.head? ≠ some w.tid ∧ w.done = false ∧ w.tid ∈ st.queue) ∧
+    (∀ t, st.queue.head? = some t → ∃ w ∈ st.writers, w.tid = t ∧ w.done = false ∧
+      (w.pc = .wokenW ∨ w.pc = .asleepBg ∨ w.pc = .wokenBg ∨ w.pc = .delayed ∨ w.pc = .io)) ∧
+    -- consequently a woken writer that is not done is the head: the wait loop never goes back to sleep
+    (∀ w ∈ st.writers, (w.pc = .wokenW ∨ w.pc = .wokenBg ∨ w.pc = .delayed) → w.done = false →
+      st.queue.head? = some w.tid) := by
+  have H := (reachable_Inv hwf h).q
+  refine ⟨?_, ?_, ?_⟩
+  · intro w hw hpc
+    have := H.wq' hw
+    simp only [WQ, hpc] at this
+    exact ⟨this.2.2, this.1, this.2.1⟩
+  · intro t ht
+    obtain ⟨w, hw, rfl⟩ := H.qmem t (List.mem_of_mem_head? ht)
+    refine ⟨w, hw, rfl, ?_⟩
+    have := H.wq' hw
+    have hm := List.mem_of_mem_head? ht
+    unfold WQ at this
+    cases hpc : w.pc <;> simp only [hpc] at this <;> simp <;> grind
+  · intro w hw hpc hd
+    exact (H.woken_head hw hpc hd).1
+
+/-- 3. Background work: it is scheduled whenever it is needed, and whoever waits for it will be woken. -/
+theorem bg_inv {ws : List Writer} {rs : List Reader} (hwf : WF ws rs) {st : St} (h : Reachable ws rs st) :
+    (st.bgScheduled = true ↔ st.bg ≠ .parked) ∧
+    ((st.imm = true ∨ st.needsCompaction = true) → st.bgError = false → st.shuttingDown = false →
+      st.bgScheduled = true) ∧
+    (∀ w ∈ st.writers, w.pc = .asleepBg → st.bgScheduled = true ∧ st.bgError = false) ∧
+    (st.closer = .asleepBg → st.bgScheduled = true) ∧
+    -- close is exclusive
+    (st.shuttingDown = true → (∀ w ∈ st.writers, w.pc = .idle ∨ ∃ ok, w.pc = .returned ok) ∧
+      (∀ r ∈ st.readers, r.pc = .idle ∨ ∃ s, r.pc = .returned s)) := by
+  have H := (reachable_Inv hwf h).b
+  exact ⟨H.sched, H.need, fun w hw => (H.wb w hw).1, H.closerB,
+    fun hs => ⟨fun w hw => (H.wb w hw).2 hs, fun r hr => H.rb r hr hs⟩⟩
+
+/-- some operation has been invoked and has not returned, or the background worker has a job -/
+def InFlight (st : St) : Prop :=
+  (∃ w ∈ st.writers, w.pc ≠ .idle ∧ ∀ ok, w.pc ≠ .returned ok) ∨
+  (∃ r ∈ st.readers, r.pc ≠ .idle ∧ ∀ s, r.pc ≠ .returned s) ∨
+  st.closer = .asleepBg ∨ st.closer = .wokenBg ∨ st.bg ≠ .parked
+
+/-! enabledness of the steps used as witnesses -/
+
+theorem enabled_wake_done {st : St} {w : Writer} (hg : getW st w.tid = some w)
+    (hpc : w.pc = .wokenW ∨ w.pc = .wokenBg ∨ w.pc = .delayed) (hd : w.done = true) :
+    ∃ st', step st (.wWake w.tid .fail) = some st' := by
+  rcases hpc with hpc | hpc | hpc <;> simp [step, hg, hpc, hd]
+
+theorem enabled_wake_head {st : St} {w : Writer} (hg : getW st w.tid = some w)
+    (hpc : w.pc = .wokenW ∨ w.pc = .wokenBg ∨ w.pc = .delayed) (hd : w.done = false)
+    (hh : st.queue.head? = some w.tid) :
+    ∃ c st', step st (.wWake w.tid c) = some st' := by
+  obtain ⟨q, hq⟩ := head?_eq_cons hh
+  by_cases hE : st.bgError = true
+  · refine ⟨.fail, ?_⟩
+    rcases hpc with hpc | hpc | hpc <;> simp [step, hg, hpc, hd, hh, headAct, hE]
+  · refine ⟨.begin false 1, ?_⟩
+    rcases hpc with hpc | hpc | hpc <;> simp [step, hg, hpc, hd, headAct, hE, hq]
+
+theorem enabled_commit {st : St} {w : Writer} (hg : getW st w.tid = some w) (hpc : w.pc = .io)
+    (hi : st.inflight.head? = some w.tid) : ∃ st', step st (.wCommit w.tid false) = some st' := by
+  simp [step, hg, hpc, hi]
+
+/-- 4. No deadlock: while anything is in flight, some thread other than a new caller can take a step. -/
+theorem no_deadlock {ws : List Writer} {rs : List Reader} (hwf : WF ws rs) {st : St} (h : Reachable ws rs st)
+    (hf : InFlight st) : ∃ l st', isInvocation l = false ∧ step st l = some st' := by
+  have H := reachable_Inv hwf h
+  -- the worker can always run
+  by_cases hbg' : st.bg ≠ .parked
+  · cases hb : st.bg with
+    | parked => exact absurd hb hbg'
+    | posted =>
+      have : ∃ st', step st .bgStart = some st' := by simp [step, hb]
+      exact ⟨.bgStart, this.choose, rfl, this.choose_spec⟩
+    | working =>
+      have : ∃ st', step st (.bgFinish false) = some st' := by simp [step, hb]
+      exact ⟨.bgFinish false, this.choose, rfl, this.choose_spec⟩
+  have hbg : st.bg = .parked := by simpa using hbg'
+  have hns : st.bgScheduled = false := by
+    cases hs : st.bgScheduled with
+    | false => rfl
+    | true => exact absurd hbg (H.b.sched.1 hs)
+  rcases hf with ⟨w, hw, hni, hnr⟩ | ⟨r, hr, hni, hnr⟩ | hc | hc | hc
+  · -- a writer is in flight
+    have hgw := getW_of_mem H.q.wnodup hw
+    have hwq := H.q.wq' hw
+    by_cases hd : w.done = true
+    · -- handed a result: it has been signalled and can return
+      have hpc : w.pc = .wokenW := by
+        unfold WQ at hwq
+        cases hpc : w.pc <;> simp only [hpc] at hwq <;> simp_all
+      obtain ⟨st', hs⟩ := enabled_wake_done hgw (Or.inl hpc) hd
+      exact ⟨_, st', rfl, hs⟩
+    · -- still queued: the head of the queue can run
+      have hd' : w.done = false := by simpa using hd
+      have hm : w.tid ∈ st.queue := by
+        have hmh : st.queue.head? = some w.tid → w.tid ∈ st.queue := List.mem_of_mem_head?
+        unfold WQ at hwq
+        cases hpc : w.pc <;> simp only [hpc] at hwq <;> simp_all
+      obtain ⟨t, q, hq⟩ : ∃ t q, st.queue = t :: q := by
+        cases hq : st.queue with
+        | nil => rw [hq] at hm; cases hm
+        | cons t q => exact ⟨t, q, rfl⟩
+      have hh : st.queue.head? = some t := by rw [hq]; rfl
+      obtain ⟨x, hx, rfl⟩ := H.q.qmem t (by rw [hq]; simp)
+      have hgx := getW_of_mem H.q.wnodup hx
+      have hxq := H.q.wq' hx
+      have hxm : x.tid ∈ st.queue := by rw [hq]; simp
+      have hxb := (H.b.wb x hx).1
+      unfold WQ at hxq
+      cases hpc : x.pc <;> simp only [hpc] at hxq
+      · exact absurd hxm hxq.2
+      · exact absurd hh hxq.2.2
+      · rcases hxq with hxq | hxq
+        · exact absurd hxm hxq.2
+        · obtain ⟨c, st', hs⟩ := enabled_wake_head hgx (Or.inl hpc) hxq.1 hh
+          exact ⟨_, st', rfl, hs⟩
+      · have := (hxb hpc).1; rw [hns] at this; cases this
+      · obtain ⟨c, st', hs⟩ := enabled_wake_head hgx (Or.inr (Or.inl hpc)) hxq.1 hh
+        exact ⟨_, st', rfl, hs⟩
+      · obtain ⟨c, st', hs⟩ := enabled_wake_head hgx (Or.inr (Or.inr hpc)) hxq.1 hh
+        exact ⟨_, st', rfl, hs⟩
+      · obtain ⟨st', hs⟩ := enabled_commit hgx hpc hxq.2.2
+        exact ⟨_, st', rfl, hs⟩
+      · exact absurd hxm hxq.1
+  · -- a reader is in flight
+    have hgr : getR st r.tid = some r := find_rtid_of_mem H.l.rnodup hr
+    cases hpc : r.pc with
+    | idle => exact absurd hpc hni
+    | reading s =>
+      have : ∃ st', step st (.rRead r.tid) = some st' := by simp [step, hgr, hpc]
+      exact ⟨_, this.choose, rfl, this.choose_spec⟩
+    | releasing s =>
+      have : ∃ st', step st (.rRelease r.tid false) = some st' := by simp [step, hgr, hpc]
+      exact ⟨_, this.choose, rfl, this.choose_spec⟩
+    | returned s => exact absurd hpc (hnr s)
+  · have := H.b.closerB hc; rw [hns] at this; cases this
+  · have : ∃ st', step st .closeWake = some st' := by simp [step, hc, hns]
+    exact ⟨_, this.choose, rfl, this.choose_spec⟩
+  · exact absurd hbg hc
+
+/-- when every thread has returned and the worker is parked nothing is in flight -/
+theorem not_inFlight_of_allDone {st : St} (hd : allDone st = true) (hb : st.bg = .parked) : ¬ InFlight st := by
+  simp only [allDone, Bool.and_eq_true, List.all_eq_true, Bool.or_eq_true, beq_iff_eq] at hd
+  obtain ⟨⟨hw, hr⟩, hc⟩ := hd
+  rintro (⟨w, hw', h1, h2⟩ | ⟨r, hr', h1, h2⟩ | hc' | hc' | hc')
+  · have := hw w hw'
+    cases hpc : w.pc <;> simp [hpc] at this h1 h2
+  · have := hr r hr'
+    cases hpc : r.pc <;> simp [hpc] at this h1 h2
+  · rw [hc'] at hc; simp at hc
+  · rw [hc'] at hc; simp at hc
+  · exact hc' hb
+
+/-! ### 5. progress
+
+`Lcdb.Conc.rank` is a weighted sum over: the writers (by program counter: `asleepW > wokenW = delayed > wokenBg >
+asleepBg > io = woken-and-done > returned`, plus the delay a writer may still take), the readers, the closer, the worker
+phase, `imm` and `bgError`. Every step that continues an operation makes it strictly smaller, except for the only two
+kinds of steps that can repeat without bound, both of the background worker (`Lcdb.Conc.isSpin`):
+
+* `bgStart`: the worker starts another round -- `bgFinish stillNeeds` reschedules it for as long as the (abstracted)
+  data say that a compaction is needed or the immutable memtable is still there;
+* `bgMid false _ false`: a critical section in the middle of the work that neither installs the flushed memtable nor
+  records an error (with `bcast = true` it even wakes a stalled writer, which then stalls again).
+
+These raise the rank by at most `#writers + 2`. (A woken writer that is not the head going back to sleep -- the third
+candidate -- never happens at all: `wakeup_inv`.) -/
+
+theorem rank_step {ws : List Writer} {rs : List Reader} (hwf : WF ws rs) {st st' : St} {l : Label}
+    (h : Reachable ws rs st) (hs : step st l = some st') (hni : isInvocation l = false) :
+    st'.writers.length = st.writers.length ∧
+    (isSpin l = false → rank st' < rank st) ∧
+    (isSpin l = true → rank st' ≤ rank st + (st.writers.length + 2)) := by
+  obtain ⟨h1, h2, h3⟩ := rankWith_step (M := st.writers.length + 2) (U := st.writers.length + 4)
+    (reachable_Inv hwf h) (Nat.le_refl _) (Nat.le_refl _) hs hni
+  refine ⟨h1, fun hsp => ?_, fun hsp => ?_⟩
+  · have := h3 hsp; unfold rank; rw [h1]; omega
+  · have := h2 hsp; unfold rank; rw [h1]; omega
+
+/-- a sequence of non-invocation steps is no longer than the rank of its first state plus `#writers + 3` per worker
+    spin step in it -/
+theorem run_bound {ws : List Writer} {rs : List Reader} (hwf : WF ws rs) {ls : List Label} :
+    ∀ {st st' : St}, Reachable ws rs st → run st ls = some st' → (∀ l ∈ ls, isInvocation l = false) →
+      ls.length + rank st' ≤ rank st + ls.countP isSpin * (st.writers.length + 3) := by
+  induction ls with
+  | nil => intro st st' _ hr _; simp [run] at hr; subst hr; simp
+  | cons l ls ih =>
+    intro st st' h hr hni
+    simp only [run] at hr
+    cases hs : step st l with
+    | none => simp [hs] at hr
+    | some st1 =>
+      simp only [hs, Option.bind_some] at hr
+      obtain ⟨hl, h1, h2⟩ := rank_step hwf h hs (hni l (by simp))
+      have := ih (Reachable.step l h hs) hr (fun l' hl' => hni l' (by simp [hl']))
+      rw [hl] at this
+      simp only [List.length_cons, List.countP_cons]
+      cases hsp : isSpin l with
+      | false =>
+        have := h1 hsp
+        simp; omega
+      | true =>
+        have := h2 hsp
+        simp only [if_true, Nat.add_mul, Nat.one_mul]; omega
+
+/-- 5. From any reachable state, a sequence of steps that continue operations in flight, in which the worker spins
+    (`bgStart` or `bgMid false _ false`) at most `N` times, has bounded length; and when it cannot be extended (no
+    such step is enabled in its last state) nothing is in flight any more. -/
+theorem progress_partial {ws : List Writer} {rs : List Reader} (hwf : WF ws rs) {st : St} (h : Reachable ws rs st)
+    (N : Nat) {ls : List Label} {st' : St} (hr : run st ls = some st') (hni : ∀ l ∈ ls, isInvocation l = false)
+    (hN : ls.countP isSpin ≤ N) :
+    ls.length ≤ rank st + N * (st.writers.length + 3) ∧
+    ((∀ l st'', isInvocation l = false → step st' l ≠ some st'') → ¬ InFlight st') := by
+  refine ⟨?_, ?_⟩
+  · have := run_bound hwf h hr hni
+    have := Nat.mul_le_mul_right (st.writers.length + 3) hN
+    omega
+  · intro hmax hf
+    obtain ⟨l, st'', h1, h2⟩ := no_deadlock hwf (Demo.reachable_run h hr) hf
+    exact hmax l st'' h1 h2
+
+/-- Consequently there is no infinite sequence of such steps with at most `N` worker spins. -/
+theorem no_infinite_run {ws : List Writer} {rs : List Reader} (hwf : WF ws rs) {st : St} (h : Reachable ws rs st)
+    (N : Nat) (ls : Nat → Label) (sts : Nat → St) (h0 : sts 0 = st)
+    (hstep : ∀ i, isInvocation (ls i) = false ∧ step (sts i) (ls i) = some (sts (i + 1)))
+    (hN : ∀ n, ((List.range n).map ls).countP isSpin ≤ N) : False := by
+  have hrun : ∀ n, run st ((List.range n).map ls) = some (sts n) := by
+    intro n
+    induction n with
+    | zero => simp [run, h0]
+    | succ n ih =>
+      rw [List.range_succ, List.map_append]
+      refine Demo.run_append ih ?_
+      simp [run, (hstep n).2]
+  have := (progress_partial hwf h N (hrun (rank st + N * (st.writers.length + 3) + 1))
+    (by intro l hl; obtain ⟨i, _, rfl⟩ := List.mem_map.1 hl; exact (hstep i).1) (hN _)).1
+  simp only [List.length_map, List.length_range] at this
+  omega
+
+/-! ### non-vacuity -/
+
+section Examples
+open Lcdb.Conc.Demo
+
+example : st1.queue.Nodup ∧ st2.inflight <+: st2.queue := ⟨(queue_inv wf reach1).1, (queue_inv wf reach2).2.2.2.1⟩
+-- writer 3 sleeps on its own cv behind the head (2), which is asleep on the background cv, not on its own
+example : ∃ w ∈ st1.writers, w.pc = .asleepW := by decide
+example : ∃ w ∈ st1.writers, w.pc = .asleepBg ∧ st1.queue.head? = some w.tid := by decide
+example : st1.bgScheduled = true := ((bg_inv wf reach1).2.2.1 _ (by decide : (st1.writers[1]'(by decide)) ∈ st1.writers)
+  (by decide)).1
+-- in `st1` the only runnable thread is the worker; `no_deadlock` finds it
+example : InFlight st1 := Or.inl (by decide)
+example : ∃ l st', isInvocation l = false ∧ step st1 l = some st' := no_deadlock wf reach1 (Or.inl (by decide))
+-- the follower 3 of `st2` is committed by its leader 2 in the next step of the run
+example : InFlight st2 ∧ ¬ InFlight st3 := by
+  exact ⟨Or.inl (by decide), not_inFlight_of_allDone (by decide) (by decide)⟩
+
+-- the whole demo run after its three `wEnter`s ... consists of non-invocation steps only from `st2` on except
+-- `close`; the tail of the run from the state after `close` is a maximal sequence with one worker spin
+example : isSpin .bgStart = true ∧ isSpin (.bgMid false true false) = true ∧ isSpin (.bgMid true false false) = false ∧
+    isSpin (.bgFinish true) = false := by decide
+example : ∃ st4, run st2 [.wCommit 2 false, .rRelease 11 false, .wWake 3 .fail, .rRead 12, .rRelease 12 true] = some st4 ∧
+    [Label.wCommit 2 false, .rRelease 11 false, .wWake 3 .fail, .rRead 12, .rRelease 12 true].length ≤
+      rank st2 + 0 * (st2.writers.length + 3) := by
+  refine ⟨_, rfl, ?_⟩
+  exact (progress_partial wf reach2 0 (st' := _) rfl (by decide) (by decide)).1
+example : rank st2 = 60 ∧ rank st3 = 31 := by decide
+
+end Examples
+
 end Lcdb.C09
